@@ -105,7 +105,7 @@ func (w *World) localTable0(al *ssa.Alloc) bool {
 				return false
 			}
 		case *ssa.Slice:
-			if x.X != ssa.Value(al) || x.Low != nil || x.High != nil || x.Max != nil || !w.readOnlySlice(x, map[ssa.Value]bool{}) {
+			if x.X != ssa.Value(al) || x.Low != nil || x.High != nil || x.Max != nil || !w.readOnlySliceTab(x, map[ssa.Value]bool{}) {
 				return false
 			}
 		default:
@@ -115,9 +115,9 @@ func (w *World) localTable0(al *ssa.Alloc) bool {
 	return true
 }
 
-// readOnlySlice: the slice value s is only measured, read element-wise, or
+// readOnlySliceTab: the slice value s is only measured, read element-wise, or
 // handed to static package callees that use their parameter in these ways.
-func (w *World) readOnlySlice(s ssa.Value, seen map[ssa.Value]bool) bool {
+func (w *World) readOnlySliceTab(s ssa.Value, seen map[ssa.Value]bool) bool {
 	if seen[s] {
 		return true
 	}
@@ -169,7 +169,7 @@ func (w *World) readOnlySlice(s ssa.Value, seen map[ssa.Value]bool) bool {
 				if a != s {
 					continue
 				}
-				if ai >= len(sc.Params) || !w.readOnlySlice(sc.Params[ai], seen) {
+				if ai >= len(sc.Params) || !w.readOnlySliceTab(sc.Params[ai], seen) {
 					return false
 				}
 			}
